@@ -168,8 +168,7 @@ Ideal2(F, op, a) ==
                 ELSE IF Len(wt.alts) > 0 /\ Len(wz.alts) > 0
                      THEN << IndexErr, Box(<<0>>, wt.alts[1], wz.alts[1], <<TRUE, FALSE, FALSE>>) >>
                      ELSE << IndexErr >>
-      [] op = "get_trace" ->
-            Ordinal(NX(F), a[1], LAMBDA k : Box(<<0>>, <<k>>, All(F, 3), <<TRUE, TRUE, FALSE>>))
+      [] op \in {"get_trace", "get_trace_by_coord"} -> Ideal3(F, op, a)     \* same meaning; GridPos is the identity, ni = 1
       [] op = "gen_trace_header" -> Ordinal(NX(F), a[1], LAMBDA k : Hdr(k, k))
       [] OTHER -> << Raise("UnknownOp") >>
 
